@@ -10,7 +10,13 @@ import (
 	"github.com/mithrandie/csvq/lib/query"
 )
 
-func Calc(ctx context.Context, proc *query.Processor, expr string) error {
+func Calc(ctx context.Context, proc *query.Processor, expr string) (err error) {
+	defer func() {
+		if panicReport := recover(); panicReport != nil {
+			err = query.NewFatalError(panicReport)
+		}
+	}()
+
 	_ = proc.Tx.SetFlag(option.NoHeaderFlag, true)
 	q := "SELECT " + expr + " FROM STDIN"
 
